@@ -142,26 +142,28 @@ def _chain_rule(
     title = "--> Apply chain rule:"
     prog_bar = get_progress(progress_type)(num_steps, title)
     prog_bar.enter()
+    try:
 
-    for i in range(0,num_steps): # populating two elements each step
+        for i in range(0,num_steps): # populating two elements each step
 
-        first_half_prop, second_half_prop = propagators(i)
-        first_half_prop_derivs,second_half_prop_derivs = dprop_dparam(i)
+            first_half_prop, second_half_prop = propagators(i)
+            first_half_prop_derivs,second_half_prop_derivs = dprop_dparam(i)
 
-        prog_bar.update(i)
+            prog_bar.update(i)
 
-        for j in range(0,num_parameters):
-            total_derivs[2*i][j] = combine_derivs(
-                            adjoint_tensor[i],
-                            first_half_prop_derivs[j].T,
-                            second_half_prop.T)
-            total_derivs[2*i+1][j] = combine_derivs(
-                adjoint_tensor[i],
-                first_half_prop.T,
-                second_half_prop_derivs[j].T)
+            for j in range(0,num_parameters):
+                total_derivs[2*i][j] = combine_derivs(
+                                adjoint_tensor[i],
+                                first_half_prop_derivs[j].T,
+                                second_half_prop.T)
+                total_derivs[2*i+1][j] = combine_derivs(
+                    adjoint_tensor[i],
+                    first_half_prop.T,
+                    second_half_prop_derivs[j].T)
 
-    prog_bar.update(num_steps)
-    prog_bar.exit()
+        prog_bar.update(num_steps)
+    finally:
+        prog_bar.exit()
 
     return total_derivs
 
@@ -270,60 +272,63 @@ def compute_gradient_and_dynamics(
     title = "--> Compute forward propagation:"
     prog_bar = get_progress(progress_type)(num_steps, title)
     prog_bar.enter()
+    try:
 
-    forwardprop_derivs_list = []
-    mpo_list=[]
+        forwardprop_derivs_list = []
+        mpo_list=[]
 
-    for step in range(num_steps+1):
+        for step in range(num_steps+1):
 
-        # -- apply pre measurement control --
-        pre_measurement_control, post_measurement_control = controls(step)
+            # -- apply pre measurement control --
+            pre_measurement_control, post_measurement_control = controls(step)
 
-        if pre_measurement_control is not None:
+            if pre_measurement_control is not None:
+                current_node, current_edges = _apply_system_superoperator(
+                    current_node, current_edges, pre_measurement_control)
+
+            if step == num_steps:
+                break
+
+            # -- extract current state -- update field --
+            if record_all:
+                caps = _get_caps(process_tensors, step)
+                state_tensor = _apply_caps(current_node, current_edges, caps)
+                state = state_tensor.reshape(hs_dim, hs_dim)
+                states.append(state)
+
+            prog_bar.update(step)
+
+            # -- apply post measurement control --
+            if post_measurement_control is not None:
+                current_node, current_edges = _apply_system_superoperator(
+                    current_node, current_edges, post_measurement_control)
+
+            forwardprop_derivs_list.append(
+                tn.replicate_nodes([current_node])[0])
+
+            # -- propagate one time step --
+            first_half_prop, second_half_prop = propagators(step)
+
+            pt_mpos = _get_pt_mpos(process_tensors, step)
+            mpo_list.append(pt_mpos)
+
             current_node, current_edges = _apply_system_superoperator(
-                current_node, current_edges, pre_measurement_control)
+                current_node, current_edges, first_half_prop)
+            current_node, current_edges = _apply_pt_mpos(
+                current_node, current_edges, pt_mpos)
 
-        if step == num_steps:
-            break
-
-        # -- extract current state -- update field --
-        if record_all:
-            caps = _get_caps(process_tensors, step)
-            state_tensor = _apply_caps(current_node, current_edges, caps)
-            state = state_tensor.reshape(hs_dim, hs_dim)
-            states.append(state)
-
-        prog_bar.update(step)
-
-        # -- apply post measurement control --
-        if post_measurement_control is not None:
             current_node, current_edges = _apply_system_superoperator(
-                current_node, current_edges, post_measurement_control)
+                current_node, current_edges, second_half_prop)
 
-        forwardprop_derivs_list.append(tn.replicate_nodes([current_node])[0])
+        # -- extract last state --
+        caps = _get_caps(process_tensors, num_steps)
+        state_tensor = _apply_caps(current_node, current_edges, caps)
+        final_state = state_tensor.reshape(hs_dim, hs_dim)
+        states.append(final_state)
 
-        # -- propagate one time step --
-        first_half_prop, second_half_prop = propagators(step)
-
-        pt_mpos = _get_pt_mpos(process_tensors, step)
-        mpo_list.append(pt_mpos)
-
-        current_node, current_edges = _apply_system_superoperator(
-            current_node, current_edges, first_half_prop)
-        current_node, current_edges = _apply_pt_mpos(
-            current_node, current_edges, pt_mpos)
-
-        current_node, current_edges = _apply_system_superoperator(
-            current_node, current_edges, second_half_prop)
-
-    # -- extract last state --
-    caps = _get_caps(process_tensors, num_steps)
-    state_tensor = _apply_caps(current_node, current_edges, caps)
-    final_state = state_tensor.reshape(hs_dim, hs_dim)
-    states.append(final_state)
-
-    prog_bar.update(num_steps)
-    prog_bar.exit()
+        prog_bar.update(num_steps)
+    finally:
+        prog_bar.exit()
 
     # -- create dynamics object --
     if record_all:
@@ -346,79 +351,36 @@ def compute_gradient_and_dynamics(
     title = "--> Compute backward propagation:"
     prog_bar = get_progress(progress_type)(num_steps, title)
     prog_bar.enter()
+    try:
 
-    if callable(target_derivative):
-        target_derivative=target_derivative(states[-1])
+        if callable(target_derivative):
+            target_derivative=target_derivative(states[-1])
 
 
-    target_ndarray = target_derivative
-    target_ndarray = target_ndarray.reshape(hs_dim**2)
-    # close the bond legs of the last time step with the cap tensors,
-    # exactly as in the extraction of the final state
-    for cap in reversed(_get_caps(process_tensors, num_steps)):
-        target_ndarray = np.multiply.outer(cap, target_ndarray)
-    current_node = tn.Node(target_ndarray)
-    current_edges = current_node[:]
+        target_ndarray = target_derivative
+        target_ndarray = target_ndarray.reshape(hs_dim**2)
+        # close the bond legs of the last time step with the cap tensors,
+        # exactly as in the extraction of the final state
+        for cap in reversed(_get_caps(process_tensors, num_steps)):
+            target_ndarray = np.multiply.outer(cap, target_ndarray)
+        current_node = tn.Node(target_ndarray)
+        current_edges = current_node[:]
 
-    combined_deriv_list = []
+        combined_deriv_list = []
 
-    pre_measurement_control, post_measurement_control=controls(num_steps)
-
-    if pre_measurement_control is not None:
-        current_node, current_edges = _apply_system_superoperator(
-                current_node, current_edges, pre_measurement_control.T)
-
-    forwardprop_tensor = forwardprop_derivs_list[num_steps-1]
-
-    pt_mpos = mpo_list[num_steps-1]
-    backprop_tensor = tn.replicate_nodes([current_node])[0]
-
-    fwd_edges = forwardprop_tensor[:]
-    deriv_forwardprop_tensor, fwd_edges = _apply_derivative_pt_mpos(
-        forwardprop_tensor,fwd_edges,pt_mpos)
-
-    for i, _ in enumerate(pt_mpos):
-        fwd_edges[i] ^ backprop_tensor[i]
-
-    deriv = deriv_forwardprop_tensor @ backprop_tensor
-
-    combined_deriv_list.append(tn.replicate_nodes([deriv])[0])
-
-    for loop, step in enumerate(reversed(range(1,num_steps))):
-
-        prog_bar.update(loop)
-
-        # -- now the backpropagation part --
-        pre_measurement_control, post_measurement_control = controls(step)
-        first_half_prop, second_half_prop = propagators(step)
-        pt_mpos = _get_pt_mpos_backprop(mpo_list, step)
-
-        current_node, current_edges = _apply_system_superoperator(
-            current_node, current_edges, second_half_prop.T)
-
-        current_node, current_edges = _apply_pt_mpos(
-            current_node, current_edges, pt_mpos, reverse=True)
-
-        current_node, current_edges = _apply_system_superoperator(
-            current_node, current_edges, first_half_prop.T)
-
-        if post_measurement_control is not None:
-            current_node, current_edges = _apply_system_superoperator(
-                current_node, current_edges, post_measurement_control.T)
+        pre_measurement_control, post_measurement_control=controls(num_steps)
 
         if pre_measurement_control is not None:
             current_node, current_edges = _apply_system_superoperator(
-                current_node, current_edges, pre_measurement_control.T)
+                    current_node, current_edges, pre_measurement_control.T)
 
-        forwardprop_tensor = forwardprop_derivs_list[step-1]
+        forwardprop_tensor = forwardprop_derivs_list[num_steps-1]
 
-        current_node.reorder_edges(current_edges)
-        backprop_tensor =  tn.replicate_nodes([current_node])[0]
-
-        pt_mpos = mpo_list[step-1]
+        pt_mpos = mpo_list[num_steps-1]
+        backprop_tensor = tn.replicate_nodes([current_node])[0]
 
         fwd_edges = forwardprop_tensor[:]
-        deriv_forwardprop_tensor,fwd_edges = _apply_derivative_pt_mpos(
+        deriv_forwardprop_tensor, fwd_edges = _apply_derivative_pt_mpos(
             forwardprop_tensor,fwd_edges,pt_mpos)
 
         for i, _ in enumerate(pt_mpos):
@@ -426,16 +388,61 @@ def compute_gradient_and_dynamics(
 
         deriv = deriv_forwardprop_tensor @ backprop_tensor
 
-        combined_deriv_list.append(deriv.get_tensor())
-        # ordering of axis:
-        # deriv[0] : output leg of 2nd half-propagator from step (n-1)
-        # deriv[1] : input system leg of MPO from step n
-        # deriv[2] : output system leg of MPO from step n
-        # deriv[3] : input lef of 1st half-propagator from step (n+1)
+        combined_deriv_list.append(tn.replicate_nodes([deriv])[0])
 
-    propagator_derivatives = list(reversed(combined_deriv_list))
+        for loop, step in enumerate(reversed(range(1,num_steps))):
 
-    prog_bar.update(num_steps)
-    prog_bar.exit()
+            prog_bar.update(loop)
+
+            # -- now the backpropagation part --
+            pre_measurement_control, post_measurement_control = controls(step)
+            first_half_prop, second_half_prop = propagators(step)
+            pt_mpos = _get_pt_mpos_backprop(mpo_list, step)
+
+            current_node, current_edges = _apply_system_superoperator(
+                current_node, current_edges, second_half_prop.T)
+
+            current_node, current_edges = _apply_pt_mpos(
+                current_node, current_edges, pt_mpos, reverse=True)
+
+            current_node, current_edges = _apply_system_superoperator(
+                current_node, current_edges, first_half_prop.T)
+
+            if post_measurement_control is not None:
+                current_node, current_edges = _apply_system_superoperator(
+                    current_node, current_edges, post_measurement_control.T)
+
+            if pre_measurement_control is not None:
+                current_node, current_edges = _apply_system_superoperator(
+                    current_node, current_edges, pre_measurement_control.T)
+
+            forwardprop_tensor = forwardprop_derivs_list[step-1]
+
+            current_node.reorder_edges(current_edges)
+            backprop_tensor =  tn.replicate_nodes([current_node])[0]
+
+            pt_mpos = mpo_list[step-1]
+
+            fwd_edges = forwardprop_tensor[:]
+            deriv_forwardprop_tensor,fwd_edges = _apply_derivative_pt_mpos(
+                forwardprop_tensor,fwd_edges,pt_mpos)
+
+            for i, _ in enumerate(pt_mpos):
+                fwd_edges[i] ^ backprop_tensor[i]
+
+            deriv = deriv_forwardprop_tensor @ backprop_tensor
+
+            combined_deriv_list.append(deriv.get_tensor())
+            # ordering of axis:
+            # deriv[0] : output leg of 2nd half-propagator from step (n-1)
+            # deriv[1] : input system leg of MPO from step n
+            # deriv[2] : output system leg of MPO from step n
+            # deriv[3] : input lef of 1st half-propagator from step (n+1)
+
+        propagator_derivatives = list(reversed(combined_deriv_list))
+
+        prog_bar.update(num_steps)
+    finally:
+        prog_bar.exit()
 
     return propagator_derivatives, dynamics
